@@ -938,14 +938,14 @@ impl CodegenContext {
                     if emit_if {
                         self.emit_tokens(&if_.inner)?;
                     } else if self.options.enable_greedy_analysis {
-                        self.with_dummy_segment(|s| s.emit_tokens(&if_.inner))?;
+                        self.analyse_untaken_branch(if_);
                     }
 
                     if let Some(e) = else_ {
                         if !emit_if {
                             self.emit_tokens(&e.inner)?;
                         } else if self.options.enable_greedy_analysis {
-                            self.with_dummy_segment(|s| s.emit_tokens(&e.inner))?;
+                            self.analyse_untaken_branch(e);
                         }
                     }
                 }
@@ -1575,6 +1575,16 @@ impl CodegenContext {
     fn symbol_definition(&mut self, symbol_nx: SymbolIndex) -> &mut Definition {
         self.analysis
             .get_or_create_definition_mut(DefinitionType::Symbol(symbol_nx))
+    }
+
+    /// Looks at a branch that is not taken, for the benefit of the analysis. What it defines must not get in the way of the
+    /// branch that is taken (which may well define the same names), so that goes into a scope of its own. And it is
+    /// assembled nowhere, so whatever goes wrong because of that (a branch that can't reach a label that does have an
+    /// address) says nothing about the program.
+    fn analyse_untaken_branch(&mut self, block: &Block) {
+        let scope = Identifier::new(format!("$untaken_{}", block.lparen.span.low().as_usize()));
+        let _ = self
+            .with_dummy_segment(|s| s.with_scope(&scope, None, |s| s.emit_tokens(&block.inner)));
     }
 
     fn with_dummy_segment<F: FnOnce(&mut Self) -> CoreResult<()>>(
